@@ -24,8 +24,10 @@ Section Generic.
     f_obj_some : forall t m, q_as_object Q t = Some m -> repr t = JObj (map kvr m);
     f_obj_none : forall t, q_as_object Q t = None -> forall m, repr t <> JObj m;
     f_str : forall t, q_as_str Q t = q_as_str J (repr t);
-    f_i64 : forall t, q_as_i64 Q t = q_as_i64 J (repr t);
-    f_f64 : forall t, q_as_f64 Q t = q_as_f64 J (repr t);
+    (* the number a value shows through as_f64 / as_i64 together (the engine reads as_f64 and falls
+       back to as_i64): an implementation may answer as_f64 for every number, as serde_json does,
+       or only for floats *)
+    f_num : forall t, num_of Q t = num_of J (repr t);
     f_bool : forall t, q_as_bool Q t = q_as_bool J (repr t);
     f_get : forall t k, option_map kvr (q_get Q t k) = q_get J (repr t) k;
     f_null : repr (q_null Q) = JNull;
@@ -204,7 +206,7 @@ Section Generic.
 
   (* ---------- comparison ---------- *)
   Lemma num_of_map v : num_of J (repr v) = num_of Q v.
-  Proof. unfold num_of. rewrite <- (f_f64 F v), <- (f_i64 F v). reflexivity. Qed.
+  Proof. symmetry. apply (f_num F). Qed.
 
   Lemma cmp_lt_map a b : cmp_lt J (repr a) (repr b) = cmp_lt Q a b.
   Proof. unfold cmp_lt. rewrite !num_of_map, <- !(f_str F). reflexivity. Qed.
@@ -546,5 +548,43 @@ Proof.
             match goal with |- ?l = map _ ?l => induction l as [|[k v] l0 IH]; [reflexivity|]; cbn; rewrite <- IH; reflexivity end).
   all: try (intros [n j] k; cbn [q_get tagged_ops untag]; destruct (q_get J j k) as [[k' v]|]; reflexivity).
   all: try (intros name args; reflexivity).
+  all: try (intros t; apply le_n).
+Qed.
+
+(* a third carrier: the same values, but with the numeric accessors of an implementation that keeps
+   integers and floats apart: as_f64 answers only for floats (and for integers outside the i64
+   range), as_i64 for integers.  The engine's fallback from as_f64 to as_i64 makes it a faithful
+   view too. *)
+Definition disjoint_as_f64 (v : json) : option dy :=
+  match v with
+  | JNum (NFlt d) => Some d
+  | JNum (NInt z) => match value_as_i64 v with Some _ => None | None => value_as_f64 v end
+  | _ => None
+  end.
+Definition disjoint_ops : qops json := {|
+  q_get := q_get J; q_as_array := q_as_array J; q_as_object := q_as_object J; q_as_str := q_as_str J;
+  q_as_i64 := q_as_i64 J; q_as_f64 := disjoint_as_f64; q_as_bool := q_as_bool J; q_null := q_null J;
+  q_of_i64 := q_of_i64 J; q_of_f64 := q_of_f64 J; q_of_bool := q_of_bool J; q_of_str := q_of_str J;
+  q_eqb := q_eqb J; q_custom := q_custom J; q_size := q_size J
+|}.
+
+Lemma disjoint_num v : num_of disjoint_ops v = num_of J v.
+Proof.
+  unfold num_of. cbn [q_as_f64 q_as_i64 disjoint_ops J value_ops].
+  destruct v as [| |[z|d]| | |]; try reflexivity.
+  unfold disjoint_as_f64, value_as_f64, value_as_i64.
+  destruct (Z.leb i64_min z && Z.leb z i64_max); reflexivity.
+Qed.
+
+Lemma disjoint_faithful : faithful json disjoint_ops (fun x => x).
+Proof.
+  constructor; try reflexivity.
+  all: try (intros t l H; destruct t; try discriminate; cbn in H; inversion H; rewrite map_id; reflexivity).
+  all: try (intros t H js E; subst; discriminate).
+  all: try (intros t m H; destruct t; try discriminate; cbn in H; inversion H; subst; f_equal;
+            induction m as [|[k v] m IH]; [reflexivity|]; cbn; rewrite <- IH; reflexivity).
+  all: try (intros t; apply disjoint_num).
+  all: try (intros t k; cbn [q_get disjoint_ops]; destruct (q_get J t k) as [[? ?]|]; reflexivity).
+  all: try (intros name args; cbn [q_custom disjoint_ops]; rewrite map_id; reflexivity).
   all: try (intros t; apply le_n).
 Qed.
